@@ -143,6 +143,10 @@ let () =
         let ok = reparse_ok (List.map z_of_int (utf8_decode real_view)) in
         Buffer.add_char b '\t';
         Buffer.add_string b (if ok then "1" else "0");
+        Buffer.add_char b '\t';
+        (match crash with
+         | Some c -> Buffer.add_string b (String.concat "," (List.map (fun f -> string_of_z (flip_confidence_bits f)) c.cr_flips))
+         | None -> ());
         print_endline (Buffer.contents b)
       end
     done
